@@ -329,7 +329,16 @@ func TestGeneratedAndMutated(t *testing.T) {
 	all := corpus.All()
 	harness.Rapid(t, harness.N(5000, 16*60000), func(t *rapid.T) {
 		var b []byte
-		switch rapid.IntRange(0, 5).Draw(t, "source") {
+		switch rapid.IntRange(0, 8).Draw(t, "source") {
+		case 6: // generated metadata section (valid or with one defect, any coordinate form) + instruction tail
+			b, _ = gen.MetaSection(t)
+			tail, _, _ := gen.Instructions(t, gen.StreamCfg{AllowOpen: true, MaxRun: 8})
+			b = append(b, tail...)
+		case 7, 8: // register-heavy program with gradient blocks (valid or broken stops, bases that wrap), encoded, sometimes mutated
+			b = gradientProgram(t)
+			if rapid.IntRange(0, 3).Draw(t, "mutategrad") == 0 {
+				b = gen.Mutate(t, b, b)
+			}
 		case 0: // random short strings
 			b = rapid.SliceOfN(rapid.Byte(), 0, 24).Draw(t, "random")
 		case 1: // random tail behind a valid header
@@ -388,4 +397,22 @@ func FuzzDecode(f *testing.F) {
 		p := spec.Parse(b)
 		fz.Observe(p.MetaOK, harness.Hash(b), nil)
 	})
+}
+
+// gradientProgram encodes a program whose paths are filled from gradient
+// register blocks at arbitrary (wrapping) bases.
+func gradientProgram(t *rapid.T) []byte {
+	var enc encode.Encoder
+	n := rapid.IntRange(1, 3).Draw(t, "gblocks")
+	for i := 0; i < n; i++ {
+		blk, g := gen.GradientBlock(t, gen.SimpleMatrix, rapid.Bool().Draw(t, "allowbreak"))
+		ops.ApplyAll(&enc, blk)
+		enc.SetCSel(g.Reg)
+		enc.StartPath(0, gen.Grid(t, "gx", 30), gen.Grid(t, "gy", 30))
+		enc.AbsLineTo(gen.Grid(t, "gx1", 30), gen.Grid(t, "gy1", 30))
+		enc.AbsLineTo(gen.Grid(t, "gx2", 30), gen.Grid(t, "gy2", 30))
+		enc.ClosePathEndPath()
+	}
+	b, _ := enc.Bytes()
+	return append([]byte{}, b...)
 }
